@@ -107,6 +107,20 @@ pub fn run_c20(ctx: &Ctx, sink: &mut Sink) {
                     sink.viol("format-builtin-differs-from-display", "format(\"{}\", x) differs from the display form of x", json!({"bits": hex(x), "display": t, "format": via_format.show()}));
                 }
                 sink.rec(json!({"t": "rec", "k": "c20", "b": hex(x), "txt": t, "o": origin}));
+                // the same number shown as a member of a list / record / nested container: format displays it the same way
+                if origin != "random" || x.to_bits() % 8 == 0 {
+                    for (src, exp) in [
+                        ("format(\"{}\", [dx])", format!("[{}]", t)),
+                        ("format(\"{}\", {total: dx})", format!("{{total: {}}}", t)),
+                        ("format(\"{}\", {a: [dx, {b: dx}], c: dx})", format!("{{a: [{}, {{b: {}}}], c: {}}}", t, t, t)),
+                        ("format(\"{} and {}\", [[dx]], dx)", format!("[[{}]] and {}", t, t)),
+                    ] {
+                        let got = sess.rout(&sess.eval(src));
+                        if got != ROut::Ok(RVal::Str(exp.clone())) {
+                            sink.viol("display-inside-container-differs", "a number inside a list / record is displayed by format differently from the number on its own", json!({"bits": hex(x), "program": src, "display_alone": t, "got": got.show(), "expected": exp}));
+                        }
+                    }
+                }
                 if sink.want_sample() && nontrivial && origin == "random" {
                     sink.sample(json!({"bits": hex(x), "value": format!("{:?}", x), "display": t}));
                 }
